@@ -89,8 +89,6 @@ package support
 //@     invariant [at_most_the_announced_number_started] 0 <= c && (cpu >= 0 ==> c <= cpu)
 //@   loop 1
 //@     complete [all_iterations_no_early_exit]
-//@   loop 2
-//@     complete [all_iterations_no_early_exit]
 //@   loop 4
 //@     complete [all_iterations_no_early_exit]
 //@   loop 6
@@ -103,6 +101,10 @@ package support
 //@     complete [all_iterations_no_early_exit]
 //@   loop 10
 //@     complete [all_iterations_no_early_exit]
+//@   call (*tree.Edge).SetSupport@L2 [every_reference_branch_inner_or_not_starts_without_a_support] a0 == e && a1 == -1.0
+//@   loop 2
+//@     complete [all_iterations_no_early_exit]
+//@     step [the_support_of_every_reference_branch_is_reset_before_any_bootstrap_tree_is_read] ghost(ncalls_SetSupport) == atHead(ghost(ncalls_SetSupport)) + 1
 
 //@ define topodepth(e *tree.Edge) int = e.ntaxleft <= e.ntaxright ? e.ntaxleft : e.ntaxright
 
